@@ -64,6 +64,8 @@ func gen(tier string, out *vlib.Out) {
 		"new sl div3 3\nins 4\nins 3\nins 5\nins 6\nins 2\nasslice\nsearch 3\ndel 3\nasslice\nget 0\nget 1\npeek\ndel 5\ndel 4\ndel 3\nasslice",
 		"new slof div3 5 7,3,4,5,9,0,4\nasslice\nlen\nsearch 3\nget 2\ndel 4\nins 4\npeek",
 		"new slpub rev 11\nins 1\nins 2\nins 3\nins 2\nasslice\nsearch 2\ndel 2\ndel 7\nlen\nasslice",
+		// a Get, an Insert of an equal value, then Gets at and after that index (a position remembered across calls goes stale)
+		"new sl nat 31\nins 1\nins 2\nins 3\nget 1\nins 2\nget 0\nget 1\nget 2\nget 3\nget 4\nins 3\nget 3\nget 4\nget 5",
 		// comparator results other than -1/0/1 (`return a - b`)
 		"new sl diff 13\nins 50\nins 10\nins 30\nins 0\nins -20\nins 30\nasslice\nsearch 30\nsearch 20\ndel 10\ndel 20\nget 0\nget 2\npeek\nasslice",
 		"new slof diff 17 9,-4,0,7,7,2\nasslice\nsearch 0\ndel 7\nins 1\nasslice",
@@ -82,7 +84,7 @@ func gen(tier string, out *vlib.Out) {
 		cmp := vlib.Pick(r, cmps)
 		span := vlib.Pick(r, []int{2, 6, 15, 40, 300})
 		seed := r.Intn(1 << 20)
-		n := 0 // upper estimate of the size
+		n := 0         // upper estimate of the size
 		var pool []int // values inserted and not yet chosen for deletion (approximate contents)
 		if kind == "sl" && r.Chance(25) {
 			k := vlib.Pick(r, []int{0, 1, 2, 5, 12, 40})
@@ -134,6 +136,10 @@ func gen(tier string, out *vlib.Out) {
 		if r.Chance(10) {
 			phases = []string{"biggrow", "churn", "drain", "refill"}
 		}
+		if kind != "slpub" && r.Chance(30) {
+			// history-sensitive reads: a Get, then an Insert of a value that is already present (a tie), then every index again
+			phases = []string{"grow", "getscan", "churn", "getscan"}
+		}
 		for _, ph := range phases {
 			steps := r.Range(3, 30)
 			switch ph {
@@ -147,6 +153,31 @@ func gen(tier string, out *vlib.Out) {
 				if tier == "thorough" && r.Chance(20) {
 					steps = 400
 				}
+			}
+			if ph == "getscan" {
+				for round := r.Range(1, 3); round > 0; round-- {
+					out.Line("get %d", idx())
+					if len(pool) > 0 && r.Chance(80) {
+						v := pool[r.Intn(len(pool))]
+						pool = append(pool, v)
+						out.Line("ins %d", v)
+					} else {
+						out.Line("ins %d", insv())
+					}
+					n++
+					lim := n
+					if lim > 14 {
+						lim = 14
+					}
+					from := 0
+					if n > lim {
+						from = r.Intn(n - lim + 1)
+					}
+					for i := from; i < from+lim; i++ {
+						out.Line("get %d", i)
+					}
+				}
+				continue
 			}
 			for s := 0; s < steps; s++ {
 				pick := r.Intn(100)
